@@ -251,6 +251,9 @@ def run(tier: str) -> int:
             # P(slot i = m0) = 1/c + (1 - 1/c) p0 ; for j != 0: (1 - 1/c) pj  (exact, from Sched.tla's process with uniform placement)
             for i, x in enumerate(q):
                 counts[x] += 1
+            if "m0" not in q:
+                rep.violation("forced-move-missing", f"weights {weights}, cycles {cycles}: m0 has minimum count 1 but a step emitted {q}", {"weights": weights, "cycles": cycles})
+                break
             pos_first[q.index("m0")] += 1
             pair[(q[0], q[1])] += 1
         tot = N * cycles
